@@ -54,6 +54,11 @@ func serverTLS() *tls.Config {
 	return &tls.Config{Certificates: []tls.Certificate{tlsCert}, NextProtos: []string{"h2"}, MinVersion: tls.VersionTLS12}
 }
 
+type tblChange struct {
+	has        bool
+	final, min uint32
+}
+
 // ConnPlan says how the next accepted connection behaves at start-up.
 type ConnPlan struct {
 	Settings [][2]uint32 // our initial SETTINGS
@@ -76,20 +81,21 @@ type SConn struct {
 	Enc    *refhpack.Encoder
 
 	// what we allow the client to send
-	ConnWin   int64
-	InitWin   int64
-	StreamWin map[uint32]int64
-	MaxFrame  int64 // our SETTINGS_MAX_FRAME_SIZE, in force once acknowledged
-	pendingMF []int64
-	FCViol    string
-	MaxConc   int64 // our SETTINGS_MAX_CONCURRENT_STREAMS as acknowledged (-1 unlimited)
-	pendingMC []int64
-	open      map[uint32]bool
-	answered  map[uint32]bool
-	MaxOpen   int
-	ConcViol  string
-	Acks      int
-	SetSent   int
+	ConnWin    int64
+	InitWin    int64
+	StreamWin  map[uint32]int64
+	MaxFrame   int64 // our SETTINGS_MAX_FRAME_SIZE, in force once acknowledged
+	pendingMF  []int64
+	pendingTbl []tblChange
+	FCViol     string
+	MaxConc    int64 // our SETTINGS_MAX_CONCURRENT_STREAMS as acknowledged (-1 unlimited)
+	pendingMC  []int64
+	open       map[uint32]bool
+	answered   map[uint32]bool
+	MaxOpen    int
+	ConcViol   string
+	Acks       int
+	SetSent    int
 
 	ready      chan struct{}
 	readerGone atomic.Bool
@@ -230,6 +236,7 @@ func (c *SConn) SendSettings(kv [][2]uint32) {
 	c.mu.Lock()
 	c.SetSent++
 	mf, mc := int64(-1), int64(-2)
+	var tbl tblChange
 	for _, s := range kv {
 		switch s[0] {
 		case 4:
@@ -250,10 +257,31 @@ func (c *SConn) SendSettings(kv [][2]uint32) {
 		case 3:
 			mc = int64(s[1])
 		case 1:
-			c.Dec.SetLimit(s[1])
-			c.xdec.SetAllowedMaxDynamicTableSize(s[1])
+			if !tbl.has || s[1] < tbl.min {
+				tbl.min = s[1]
+			}
+			tbl.has, tbl.final = true, s[1]
 		}
 	}
+	if tbl.has {
+		outstanding := false
+		for _, p := range c.pendingTbl {
+			if p.has {
+				outstanding = true
+			}
+		}
+		if !outstanding {
+			c.Dec.LowWater = c.Dec.T.Max
+		}
+		// a larger table is allowed from the moment we say so; a smaller one
+		// binds the client's encoder once it has acknowledged the frame
+		// (blocks already on their way cannot know about it)
+		if tbl.final > c.Dec.Limit {
+			c.Dec.Limit = tbl.final
+			c.xdec.SetAllowedMaxDynamicTableSize(tbl.final)
+		}
+	}
+	c.pendingTbl = append(c.pendingTbl, tbl)
 	c.pendingMF = append(c.pendingMF, mf)
 	c.pendingMC = append(c.pendingMC, mc)
 	c.mu.Unlock()
@@ -400,7 +428,23 @@ func (c *SConn) readLoop() {
 					if c.pendingMC[0] > -2 {
 						c.MaxConc = c.pendingMC[0]
 					}
-					c.pendingMF, c.pendingMC = c.pendingMF[1:], c.pendingMC[1:]
+					if p := c.pendingTbl[0]; p.has {
+						// the smallest size the frame went through must have been (or must
+						// still be) signalled; then the limit is the frame's final value,
+						// or a larger one from a SETTINGS frame that is still on its way
+						if c.Dec.LowWater > p.min && p.min < c.Dec.T.Max {
+							c.Dec.SetLimit(p.min)
+						}
+						lim := p.final
+						for _, q := range c.pendingTbl[1:] {
+							if q.has && q.final > lim {
+								lim = q.final
+							}
+						}
+						c.Dec.Limit = lim
+						c.xdec.SetAllowedMaxDynamicTableSize(lim)
+					}
+					c.pendingMF, c.pendingMC, c.pendingTbl = c.pendingMF[1:], c.pendingMC[1:], c.pendingTbl[1:]
 				}
 				c.mu.Unlock()
 				c.add(peer.Event{Kind: "settingsack"})
